@@ -8,6 +8,7 @@ import z3
 
 from pyvc import mk, sym
 from pyvc.api import Contract, NativeCheck, outcome
+from pyvc.interp import LoopSpec
 from pyvc.sym import SBool, SNum, SStr, mk_bool
 from . import env, nodemodel as nm
 from .nodemodel import Struct
@@ -119,10 +120,98 @@ def run_apply_simp(eng, p):
                  out.value is new_list and not intro)
 
 
+# -- introduce_variables on a list of any length -------------------------------------
+
+IV = 'ddsmt.smtlib.introduce_variables'
+
+
+def setup_iv(eng):
+    from . import worklist as wl
+    wl.pre_install(eng)
+    setup(eng)
+    wl.install(eng)
+    eng.spec_required.add(IV)
+    S_ = nm.Struct
+
+    def prelude(s):
+        """s is a (set-info ...) / (set-logic ...) command"""
+        k = S_.kids(s)
+        return z3.And(S_.is_tup(s), z3.Length(k) > 0,
+                      S_.is_leaf(k[0]),
+                      z3.Or(S_.text(k[0]) == z3.StringVal('set-info'),
+                            S_.text(k[0]) == z3.StringVal('set-logic')))
+
+    eng._prelude = prelude
+
+    def havoc(e, env_, p):
+        env_.vars['pos'] = SNum(p.fresh_int('pos'))
+        # the loop is left (exit or break) with this value: the witness of
+        # the postcondition
+        p.ghost['pos'] = env_.vars['pos'].z
+
+    def inv(e, env_):
+        p = sym.cur()
+        F = p.ghost['F']
+        pos = sym._znum(env_.vars['pos'])
+        i = z3.Int('i!iv')
+        return [z3.And(pos >= 0, pos <= z3.Length(F)),
+                ('C11', z3.ForAll([i], z3.Implies(
+                    z3.And(0 <= i, i < pos), prelude(F[i]))))]
+
+    eng.loop_specs[(IV, 'while pos < len(exprs)')] = LoopSpec(
+        inv=inv, havoc={'effect:state': havoc}, sets=('pos', ),
+        decreases=lambda e, env_: SNum(
+            z3.Length(sym.cur().ghost['F']) - sym._znum(env_.vars['pos'])))
+
+
+def run_iv(eng, p):
+    from . import worklist as wl
+    sm = eng.load_module('ddsmt.smtlib')
+    exprs, F = wl.forest(eng, p, 'F')
+    decls, V = wl.forest(eng, p, 'V')
+    p.ghost['F'] = F
+    out = outcome(eng, sm.g['introduce_variables'], [exprs, decls])
+    N = 'C11/introduce_variables'
+    p.oblige(f'{N}/raises-nothing', out.kind == 'return', info=repr(out))
+    if out.kind != 'return':
+        return
+    r = out.value
+    ok = isinstance(r, wl.AbsList)
+    p.oblige(f'{N}/returns-a-list', ok)
+    if not ok:
+        return
+    R = eng.whole_seq(eng, r)
+    k = p.ghost['pos']
+    i = z3.Int('i!iv2')
+    n = z3.Length(F)
+    pre = eng._prelude
+    # there is a position k: the result is F[:k] ++ decls ++ F[k:], all of
+    # F[:k] are set-info / set-logic commands and F[k] (if any) is not
+    p.oblige(f'{N}/declarations-inserted-right-after-the-prelude',
+             mk_bool(z3.And(
+                 0 <= k, k <= n,
+                 R == z3.Concat(z3.SubSeq(F, 0, k), V,
+                                z3.SubSeq(F, k, n - k)),
+                 z3.ForAll([i], z3.Implies(z3.And(0 <= i, i < k),
+                                           pre(F[i]))),
+                 z3.Or(k == n, z3.Not(pre(F[k]))))),
+             info={'signature': 'the declarations are not inserted exactly '
+                   'after the maximal set-info / set-logic prefix, or '
+                   'something else changed'})
+    p.oblige(f'{N}/argument-not-modified',
+             len(exprs.parts) == 1 and z3.eq(exprs.parts[0].seq, F))
+
+
 def contracts(tier):
     from . import rebuild
     kmax = 5 if tier == 'thorough' else 3
     cs = list(rebuild.substitute_contracts(tier))
+    cs.append(Contract('C11/introduce_variables[any list]', [IV], run_iv,
+                       setup=setup_iv, assumptions=[
+                           nm.ASSUME_LAZY, 'the lists of commands and of '
+                           'declarations are abstract lists of arbitrary '
+                           'length (contracts/worklist.py): indexing checks '
+                           'the bounds, slices and + per Python semantics']))
     for k in range(0, kmax + 1):
         for nv in (0, 1, 2):
             cs.append(
